@@ -19,8 +19,18 @@ func init() {
 
 	pair := func(t *rapid.T) []spec.V {
 		ty := gen.Type(gen.TypeOpts{Depth: 2}).Draw(t, "type")
+		if rapid.IntRange(0, 9).Draw(t, "setpair") == 5 {
+			// sets of primitives, compared often enough to matter
+			ty = spec.Set(primT(t))
+		}
 		o := gen.ValOpts{Null: true, Simple: true}
 		a := gen.Value(ty, o).Draw(t, "a")
+		if a.T.K == spec.KSet && a.St == spec.Known && len(a.Elems) > 0 && rapid.Bool().Draw(t, "dupmember") {
+			// a set spec may name one member twice (the value holds it once):
+			// weakening one of the two gives a set that holds an unknown member
+			// which may turn out to be one of the others
+			a.Elems = append(a.Elems, a.Elems[rapid.IntRange(0, len(a.Elems)-1).Draw(t, "dup")].Clone())
+		}
 		switch rapid.IntRange(0, 3).Draw(t, "rel") {
 		case 0:
 			return []spec.V{a, a.Clone()}
